@@ -28,7 +28,7 @@ using wallet::CRecipient;
 
 namespace {
 
-struct Recip { int dest; CAmount amount; bool sffo; };   // dest: 0 = external P2WPKH, 1 = external P2PKH, 2 = external P2TR
+struct Recip { int dest; CAmount amount; bool sffo; };   // dest: 0 = external P2WPKH, 1 = external P2PKH, 2 = external P2TR, 3 = another external P2WPKH
 struct Case {
     std::vector<Recip> recips;
     CAmount feerate;        // sat/kvB
@@ -79,10 +79,10 @@ struct Job {
         }
         change_scripts = InternalScripts(w.W(), 400);
         max_tx_fee = w.W().m_default_max_tx_fee;
-        CKey k1, k2, k3;
-        std::vector<unsigned char> r1(32, 0x31), r2(32, 0x32), r3(32, 0x33);
-        k1.Set(r1.begin(), r1.end(), true); k2.Set(r2.begin(), r2.end(), true); k3.Set(r3.begin(), r3.end(), true);
-        dests = {WitnessV0KeyHash(k1.GetPubKey()), PKHash(k2.GetPubKey()), WitnessV1Taproot(XOnlyPubKey(k3.GetPubKey()))};
+        CKey k1, k2, k3, k4;
+        std::vector<unsigned char> r1(32, 0x31), r2(32, 0x32), r3(32, 0x33), r4(32, 0x34);
+        k1.Set(r1.begin(), r1.end(), true); k2.Set(r2.begin(), r2.end(), true); k3.Set(r3.begin(), r3.end(), true); k4.Set(r4.begin(), r4.end(), true);
+        dests = {WitnessV0KeyHash(k1.GetPubKey()), PKHash(k2.GetPubKey()), WitnessV1Taproot(XOnlyPubKey(k3.GetPubKey())), WitnessV0KeyHash(k4.GetPubKey())};
 
         const CAmount T = SumSafe();
         const CFeeRate dust_rate = w.W().chain().relayDustFee();
@@ -111,10 +111,21 @@ struct Job {
                 two.push_back({{1, T - 3000000, s0}, {0, 2999000, s1}});
             }
         }
+        // 3 and 4 recipients: every subtract-fee flag combination of three, and four with the subtracting recipients
+        // behind / around non-subtracting ones (who pays the indivisible remainder?); more feerates so that the fee
+        // takes every residue modulo the number of subtracting recipients
+        std::vector<std::vector<Recip>> multi;
+        for (int f = 0; f < 8; f++) multi.push_back({{0, MID, bool(f & 1)}, {1, MID / 2 + 1, bool(f & 2)}, {2, 777777, bool(f & 4)}});
+        for (int f : {0b0110, 0b1110, 0b1101, 0b1100, 0b1011, 0b1111})
+            multi.push_back({{0, MID, bool(f & 1)}, {1, MID / 2 + 1, bool(f & 2)}, {2, 777777, bool(f & 4)}, {3, 1234567, bool(f & 8)}});
+        std::vector<CAmount> multi_rates = rates;
+        for (CAmount x : {1001, 1003, 3333, 10007}) multi_rates.push_back(x);
         // ---- cc = none: full grid
         for (auto& rl : {one, two})
             for (auto& r : rl)
                 for (CAmount fr : rates) Call({r, fr, "none"});
+        for (auto& r : multi)
+            for (CAmount fr : multi_rates) Call({r, fr, "none"});
         // ---- other coin-control options: representative recipients
         std::vector<std::string> ccs{"external", "chg-legacy", "chg-bech32m", "unsafe", "chgpos0"};
         for (auto& [k, op] : P.op) { (void)op; ccs.push_back("pre" + std::to_string(k)); ccs.push_back("preonly" + std::to_string(k)); }
@@ -290,6 +301,10 @@ struct Job {
                 if (red[i] != want) { Viol("sffo-share", strprintf("subtract-fee recipient #%d pays %d, its exact share of %d among %d is %d", i, red[i], reduced, nsffo, want), c); break; }
             }
             if (reduced < 0) out.count("sffo_negative_share");
+            if (nsffo >= 2 && reduced % nsffo != 0) {
+                out.count("sffo_indivisible");
+                if (!c.recips[0].sffo) out.count("sffo_indivisible_first_listed_not_subtracting");
+            }
         }
         // (3) fee bounds on the final signed transaction
         const int64_t vsize = (GetTransactionWeight(tx) + 3) / 4;
@@ -360,13 +375,13 @@ int main(int argc, char** argv)
     E.evaluations = cnt("calls");
     E.distinct_nontrivial = pool.distinct_size("created");
     E.exhaustive = pool.complete;
-    E.rule = "one evaluation = one wallet::CreateTransaction call on a wallet holding exactly the coins of the coin set; grid = coin sets x recipient lists (1-2 recipients, amounts dust threshold / mid / total / total-200 / total+1 / halves, every subtract-fee flag combination) x feerates x coin-control options; distinct_nontrivial = distinct (coin set, call) pairs that produced a transaction (all oracle clauses evaluated on it)";
+    E.rule = "one evaluation = one wallet::CreateTransaction call on a wallet holding exactly the coins of the coin set; grid = coin sets x recipient lists (1-2 recipients, amounts dust threshold / mid / total / total-200 / total+1 / halves, every subtract-fee flag combination; 3 recipients with all 8 flag combinations and 4 recipients with 6 flag patterns incl. first-listed-not-subtracting, at 8-9 feerates) x feerates x coin-control options; distinct_nontrivial = distinct (coin set, call) pairs that produced a transaction (all oracle clauses evaluated on it)";
     E.assume("regtest node in-process, wallet notifications queued and drained after every node call; RNG seeded with zeros per coin set");
     E.assume("requested feerate always explicit (the wallet has no fee estimates and the fallback fee is disabled by default); feerate 100 sat/kvB uses fOverrideFeeRate");
     E.assume("test-accept is not demanded when the caller preselected the immature coinbase");
     E.set("coin_sets", (uint64_t)masks.size());
     E.set("coin_sets_done", pool.jobs_done);
-    for (const char* k : {"created", "failed", "failed_insufficient", "failed_dust", "failed_maxfee", "failed_other", "prepared_coins_differ_from_reference", "with_change", "without_change", "sffo_created", "sffo_negative_share", "accepted", "not_submitted_immature_preselected", "cc_none", "cc_pre", "cc_preonly", "cc_external", "cc_chg-legacy", "cc_chg-bech32m", "cc_unsafe", "cc_chgpos0", "rate_100", "rate_1000", "rate_10000", "rate_1000000"})
+    for (const char* k : {"created", "failed", "failed_insufficient", "failed_dust", "failed_maxfee", "failed_other", "prepared_coins_differ_from_reference", "with_change", "without_change", "sffo_created", "sffo_negative_share", "sffo_indivisible", "sffo_indivisible_first_listed_not_subtracting", "accepted", "not_submitted_immature_preselected", "cc_none", "cc_pre", "cc_preonly", "cc_external", "cc_chg-legacy", "cc_chg-bech32m", "cc_unsafe", "cc_chgpos0", "rate_100", "rate_1000", "rate_10000", "rate_1000000"})
         E.set(k, cnt(k));
     for (auto& s : pool.samples) E.sample(s);
     E.sample("coin kinds: p2wpkh 1.0, p2pkh 0.5, p2tr 0.25, p2sh-p2wpkh 0.125 BTC confirmed; immature coinbase 50; locked 0.3; unconfirmed change of an own mempool tx 0.15; unconfirmed payment from a stranger 0.11");
@@ -378,7 +393,7 @@ int main(int argc, char** argv)
         return 2;
     }
     if (pool.complete && vx::ctx().replay.empty() && !getenv("C41_MASKS") && vx::rep().violations == 0) {
-        for (const char* k : {"created", "failed_insufficient", "failed_dust", "with_change", "without_change", "sffo_created", "accepted", "cc_pre", "cc_preonly", "cc_external", "cc_chg-legacy", "cc_chg-bech32m", "cc_unsafe", "rate_100", "rate_1000000"})
+        for (const char* k : {"created", "failed_insufficient", "failed_dust", "with_change", "without_change", "sffo_created", "sffo_indivisible", "sffo_indivisible_first_listed_not_subtracting", "accepted", "cc_pre", "cc_preonly", "cc_external", "cc_chg-legacy", "cc_chg-bech32m", "cc_unsafe", "rate_100", "rate_1000000"})
             if (!cnt(k)) { vx::write_evidence(); printf("HARNESS-ERROR outcome class '%s' never occurred: vacuous run\n", k); return 2; }
     }
     return vx::finish();
